@@ -78,7 +78,9 @@ Proof.
   unfold gen_pawn_nonquiet.
   rewrite (ev_captures p Hlegal evt DW (or_introl eq_refl)), (ev_captures p Hlegal evt DE (or_intror eq_refl)). cbn [bind].
   rewrite (ep_part p Hlegal). cbn [bind]. rewrite (ev_promnq prom_nq p Hlegal evt). cbn [bind map concat].
-  rewrite (keep_mask p 0), (keep_mask p 1), (keep_mask p 2), (keep_mask p 3), (keep_ep p 4), (keep_ep p 5), (keep_mask p 6) by tauto.
+  rewrite (keep_mask p 0 ltac:(clear; tauto)), (keep_mask p 1 ltac:(clear; tauto)), (keep_mask p 2 ltac:(clear; tauto)),
+          (keep_mask p 3 ltac:(clear; tauto)), (keep_ep p 4 ltac:(clear; tauto)), (keep_ep p 5 ltac:(clear; tauto)),
+          (keep_mask p 6 ltac:(clear; tauto)).
   rewrite (comp_0 prom_nq p), (comp_1 prom_nq p), (comp_2 prom_nq p), (comp_3 prom_nq p), (comp_4 prom_nq p),
           (comp_5 prom_nq p), (comp_6 prom_nq p).
   rewrite !app_nil_r, <- !app_assoc. reflexivity.
@@ -89,7 +91,7 @@ Lemma pawn2_ev : gen_pawn_moves prom_nq v 2 true evt =
 Proof.
   unfold gen_pawn_moves. replace (has_nq 2) with false by reflexivity. replace (has_q 2) with true by reflexivity.
   cbn [bind]. rewrite (ev_quiet prom_nq p Hlegal evt). cbn [bind map concat].
-  rewrite (keep_mask p 9), (keep_mask p 10), (keep_mask p 11) by tauto.
+  rewrite (keep_mask p 9 ltac:(clear; tauto)), (keep_mask p 10 ltac:(clear; tauto)), (keep_mask p 11 ltac:(clear; tauto)).
   rewrite (comp_9 prom_nq p), (comp_10 prom_nq p), (comp_11 prom_nq p). rewrite !app_nil_r. reflexivity.
 Qed.
 
@@ -100,19 +102,19 @@ Proof.
   destruct (k =? OD_1); [rewrite pawn1_nonev; reflexivity|].
   destruct (k =? OD_2).
   { pose proof (gen_moves_eq p Hlegal true) as H. change (mode_of true) with 1 in H. rewrite H. cbn [unwrap map concat].
-    now rewrite (comp_8 prom_nq p), app_nil_r. }
+    rewrite (comp_8 prom_nq p), app_nil_r. reflexivity. }
   destruct (k =? OD_3).
   { pose proof (gen_king_eq p Hlegal true k0 K1 K2 K3) as H. change (mode_of true) with 1 in H. rewrite H. cbn [unwrap map concat].
-    now rewrite (comp_7 prom_nq p), app_nil_r. }
+    rewrite (comp_7 prom_nq p), app_nil_r. reflexivity. }
   destruct (k =? OD_5); [rewrite pawn2_nonev; reflexivity|].
   destruct (k =? OD_6).
-  { rewrite (gen_castling_eq p Hlegal). cbn [unwrap map concat]. now rewrite (comp_12 prom_nq p), app_nil_r. }
+  { rewrite (gen_castling_eq p Hlegal). cbn [unwrap map concat]. rewrite (comp_12 prom_nq p), app_nil_r. reflexivity. }
   destruct (k =? OD_7).
   { pose proof (gen_moves_eq p Hlegal false) as H. change (mode_of false) with 2 in H. rewrite H. cbn [unwrap map concat].
-    now rewrite (comp_14 prom_nq p), app_nil_r. }
+    rewrite (comp_14 prom_nq p), app_nil_r. reflexivity. }
   destruct (k =? OD_8).
   { pose proof (gen_king_eq p Hlegal false k0 K1 K2 K3) as H. change (mode_of false) with 2 in H. rewrite H. cbn [unwrap map concat].
-    now rewrite (comp_13 prom_nq p), app_nil_r. }
+    rewrite (comp_13 prom_nq p), app_nil_r. reflexivity. }
   reflexivity.
 Qed.
 
@@ -123,18 +125,18 @@ Proof.
   destruct (k =? OD_1); [rewrite pawn1_ev; reflexivity|].
   destruct (k =? OD_2).
   { pose proof (ev_moves p Hlegal evt true) as H. change (mode_of true) with 1 in H. rewrite H. cbn [unwrap map concat].
-    rewrite (keep_mask p 8) by tauto. now rewrite (comp_8 prom_nq p), app_nil_r. }
+    rewrite (keep_mask p 8 ltac:(clear; tauto)). rewrite (comp_8 prom_nq p), app_nil_r. reflexivity. }
   destruct (k =? OD_3).
   { pose proof (ev_king p Hlegal true k0 K1 K2 K3) as H. change (mode_of true) with 1 in H. rewrite H. cbn [unwrap map concat].
-    rewrite (keep_king p 7) by tauto. now rewrite (comp_7 prom_nq p), app_nil_r. }
+    rewrite (keep_king p 7 ltac:(clear; tauto)). rewrite (comp_7 prom_nq p), app_nil_r. reflexivity. }
   destruct (k =? OD_5); [rewrite pawn2_ev; reflexivity|].
   destruct (N.eqb_spec k OD_6) as [E|_]; [contradiction|].
   destruct (k =? OD_7).
   { pose proof (ev_moves p Hlegal evt false) as H. change (mode_of false) with 2 in H. rewrite H. cbn [unwrap map concat].
-    rewrite (keep_mask p 14) by tauto. now rewrite (comp_14 prom_nq p), app_nil_r. }
+    rewrite (keep_mask p 14 ltac:(clear; tauto)). rewrite (comp_14 prom_nq p), app_nil_r. reflexivity. }
   destruct (k =? OD_8).
   { pose proof (ev_king p Hlegal false k0 K1 K2 K3) as H. change (mode_of false) with 2 in H. rewrite H. cbn [unwrap map concat].
-    rewrite (keep_king p 13) by tauto. now rewrite (comp_13 prom_nq p), app_nil_r. }
+    rewrite (keep_king p 13 ltac:(clear; tauto)). rewrite (comp_13 prom_nq p), app_nil_r. reflexivity. }
   reflexivity.
 Qed.
 
@@ -155,7 +157,7 @@ Proof.
   destruct ((k =? OD_1) || (k =? OD_2) || (k =? OD_3) || (k =? OD_5) || (k =? OD_7) || (k =? OD_8)) eqn:E.
   - apply stage_ev. intros ->. discriminate.
   - destruct (N.eqb_spec k OD_6) as [E6|E6].
-    + subst k. cbn [ids N.eqb Pos.eqb OD_1 OD_2 OD_3 OD_5 OD_6 map concat]. now rewrite (keep_castle p).
+    + subst k. cbn [ids N.eqb Pos.eqb OD_1 OD_2 OD_3 OD_5 OD_6 map concat]. rewrite (keep_castle p). reflexivity.
     + unfold ids. repeat (apply orb_false_iff in E as [E ?]).
       repeat match goal with H : (k =? _) = false |- _ => rewrite H; clear H end.
       replace (k =? OD_6) with false by (symmetry; now apply N.eqb_neq). reflexivity.
